@@ -339,6 +339,130 @@ class UpdateCachedStateNum:
     ensures = [caches_when_there_is_a_cache]
 
 
+# ------------------------------------------------------------------------------------------------- aggregate async_find
+
+
+class _FindTransport(StubObj):
+    def __init__(self, k):
+        self.k = k
+
+    def m_async_find(self, it, device_id, timeout):
+        it.ctx.trace.append(("transport_find", self.k, device_id, timeout))
+        return ("find-coroutine", self.k)
+
+
+class _WaitAwaitable(StubObj):
+    """assumed contract of asyncio.wait(FIRST_COMPLETED): suspends; then a NON-EMPTY subset of the pending tasks is done
+    (each with a discovery, with not-found at its timeout, or with another error), returned in either order; or the
+    caller is cancelled while suspended"""
+
+    def __init__(self, pending, return_when):
+        self.pending = list(pending)
+        self.return_when = return_when
+
+    def sym_await(self, it):
+        it.ctx.trace.append(("wait", list(self.pending), self.return_when))
+        pend = [t for t in self.pending]
+        if it.ctx.choose(["resumed", "caller-cancelled"]) == "caller-cancelled":
+            it.ctx.ghost["caller_cancelled"] = True
+            it.raise_exc(asyncio.CancelledError)
+        idx = list(range(len(pend)))
+        subsets = [[i] for i in idx] + ([[0, 1], [1, 0]] if len(pend) == 2 else [])
+        chosen = subsets[it.ctx.choose(list(range(len(subsets))))]
+        done = []
+        for i in chosen:
+            t = pend[i]
+            fate = it.ctx.choose(["found", "not-found", "other-error"])
+            if fate == "found":
+                t.state, t.value = "result", SObj(object, label=f"discovery-of-transport")
+            elif fate == "not-found":
+                t.state, t.value = "exception", it.instantiate(AccessoryNotFoundError, ["not found"], {})
+            else:
+                t.state, t.value = "exception", it.instantiate(RuntimeError, ["transport failed"], {})
+            done.append(t)
+        rest = [t for i, t in enumerate(pend) if i not in chosen]
+        return (done, rest)
+
+
+def _await_cancelled_task(it, fut):
+    """awaiting a task after cancel(): it ends cancelled"""
+    if getattr(fut, "cancel_requested", False):
+        fut.state = "cancelled"
+        it.raise_exc(asyncio.CancelledError)
+    # a finder that was NOT cancelled runs until its own timeout: the caller is held up for that long (recorded)
+    it.ctx.ghost["held_up_by_a_running_finder"] = True
+    fut.state, fut.value = "exception", it.instantiate(AccessoryNotFoundError, ["not found"], {})
+    raise RaiseEx(fut.value)
+
+
+def _agg_setup(it):
+    from aiohomekit.controller.controller import Controller
+
+    n = it.ctx.choose([1, 2])
+    c = SObj(Controller, label="controller")
+    c.fields["transports"] = {f"t{k}": _FindTransport(k) for k in range(n)}
+    it.env.stub(asyncio.wait, lambda it, pending, return_when=asyncio.ALL_COMPLETED, **kw: _WaitAwaitable(pending, return_when))
+
+    def create_task(it, coro, name=None):
+        t = aio.TaskStub(coro)
+        t.f_coro = coro
+        it.ctx.trace.append(("create_task", t))
+        return t
+
+    it.env.stub(asyncio.create_task, create_task)
+    it.ctx.ghost.update(n=n, caller_cancelled=False, held_up_by_a_running_finder=False)
+    return {"self": c, "device_id": it.fresh(Str, "arg_device_id"), "timeout": it.fresh(Int, "arg_timeout")}
+
+
+def _tasks(trace):
+    return [e[1] for e in trace if e[0] == "create_task"]
+
+
+@contract("aiohomekit.controller.controller:Controller.async_find", prop="C19")
+class AggregateFind:
+    """the aggregate controller over 1..2 transports, every completion order / outcome of their finders"""
+
+    setup = _agg_setup
+    await_policy = _await_cancelled_task
+    raises = {AccessoryNotFoundError: True, asyncio.CancelledError: True, RuntimeError: True}
+
+    def every_transport_is_asked(device_id, timeout, trace, ghost):
+        asked = [e for e in trace if e[0] == "transport_find"]
+        return (
+            [e[1] for e in asked] == list(range(ghost["n"]))
+            and all(e[2] is device_id and e[3] is timeout for e in asked)
+            and len(_tasks(trace)) == ghost["n"]
+            and [t.coro for t in _tasks(trace)] == [("find-coroutine", k) for k in range(ghost["n"])]
+        )
+
+    def no_finder_left_running(trace, ghost):
+        """every finder task has ended or was cancelled AND awaited (state cancelled) - none leaks - and the caller never
+        sits out the timeout of a finder it no longer needs; each suspension waits for the FIRST finder to complete"""
+        return (
+            all(t.state != "pending" for t in _tasks(trace))
+            and not ghost["held_up_by_a_running_finder"]
+            and all(e[2] == asyncio.FIRST_COMPLETED for e in trace if e[0] == "wait")
+        )
+
+    def completed_with_a_discovery_that_was_found(trace, result):
+        """as soon as ANY transport's finder completes with a discovery (and no finder reported in the same wake-up before
+        it failed with another error) the caller gets that discovery"""
+        return any(t.state == "result" and t.value is result for t in _tasks(trace))
+
+    ensures = [every_transport_is_asked, no_finder_left_running, completed_with_a_discovery_that_was_found]
+
+    def not_found_only_when_every_transport_timed_out(trace, ghost, exc):
+        ts = _tasks(trace)
+        if isinstance(exc, AccessoryNotFoundError):
+            # (the not-found error of the aggregate: every finder ran to its own end and none found the device)
+            return len(ts) == ghost["n"] and all(t.state == "exception" for t in ts)
+        if isinstance(exc, asyncio.CancelledError):
+            return ghost["caller_cancelled"]
+        return any(t.state == "exception" and t.value is exc for t in ts)
+
+    exsures = [every_transport_is_asked, no_finder_left_running, not_found_only_when_every_transport_timed_out]
+
+
 def _native(tier, seed):
     from harness import discovery
 
